@@ -598,8 +598,11 @@ impl<P: TInputProtocol + RProbe> TInputProtocol for TracedR<P> {
         Ok(b)
     }
     fn get_bytes(&mut self, ptr: Option<*const u8>, len: usize) -> Result<Bytes, ThriftException> {
-        // pure observation of already consumed input (retention): no event, the re-encoded bytes are judged elsewhere
-        self.inner.get_bytes(ptr, len)
+        // retention: a copy of already consumed input when `ptr` is given (the unchecked reader re-bases its cursor
+        // while doing so), the REST of the input when it is not (the argument-type shortcut)
+        let b = self.inner.get_bytes(ptr, len)?;
+        self.r(json!({"op":"r_get_bytes","len":len,"copy": ptr.is_some()}));
+        Ok(b)
     }
     fn buf(&mut self) -> &mut Self::Buf {
         self.inner.buf()
